@@ -2,7 +2,7 @@
 # usage: tools/run_all.sh quick|thorough [IDs...] — runs the registered command of every claimed property on /repo
 # as it stands and prints one summary line per property (evidence goes to /verif/evidence/<ID>.json).
 tier=$1; shift
-ids="$@"; [ -z "$ids" ] && ids="C01 C02 C03 C04 C06 C07 C08 C09 C10 C11 C12 C13 C14 C15 C16 C17 C18 C19 C20"
+ids="$@"; [ -z "$ids" ] && ids="C01 C02 C03 C04 C05 C06 C07 C08 C09 C10 C11 C12 C13 C14 C15 C16 C17 C18 C19 C20"
 cd /verif
 for id in $ids; do
   t0=$(date +%s)
